@@ -124,7 +124,7 @@ fn directed_mode(d: &Directed, mode: CloseMode) -> Check {
             let page = cpref::page_by_id(*id).unwrap();
             pkg.set_database_codepage(page.cp);
             pkg.summary_info_mut().set_codepage(page.cp);
-            let rep: Vec<char> = cpref::repertoire(page).into_iter().filter(|c| *c != '\u{feff}' && !c.is_control()).collect();
+            let rep: Vec<char> = cpref::repertoire(page).into_iter().filter(|c| !c.is_control()).collect();
             pkg.create_table("T", vec![Column::build("k").primary_key().string(0), Column::build("v").nullable().string(0)]).map_err(|e| err("create_table", e))?;
             let mut rows = Vec::new();
             for (i, c) in rep.iter().enumerate() {
@@ -132,6 +132,13 @@ fn directed_mode(d: &Directed, mode: CloseMode) -> Check {
             }
             let all: String = rep.iter().collect();
             rows.push(vec![Value::Str(all.clone()), Value::Null]);
+            // strings whose encoded form starts like a byte-order mark
+            for (i, b) in cpref::bom_lookalikes(page).into_iter().enumerate() {
+                rows.push(vec![Value::Str(b.clone()), Value::Str(format!("{b}{i}"))]);
+                if i == 0 {
+                    pkg.summary_info_mut().set_title(b);
+                }
+            }
             pkg.insert_rows(Insert::into("T").rows(rows)).map_err(|e| err("insert", e))?;
             let non_ascii: String = rep.iter().filter(|c| !c.is_ascii()).collect();
             pkg.summary_info_mut().set_author(non_ascii.clone());
